@@ -67,7 +67,8 @@ def parseFile (j : Json) : File :=
     else (getArr j "elems").filterMap (fun e => match asArr e with
       | [k, ns] => some (parseKind (asStr k), (asArr ns).map parseNode)
       | _ => none)
-  ⟨getBool j "parses", tops, elems, parseTable nodes (getArr j "typed"), parseTable nodes (getArr j "raw"), getBool j "conflict", getBool j "emptyPI"⟩
+  ⟨getBool j "parses", tops, elems, parseTable nodes (getArr j "typed"), parseTable nodes (getArr j "raw"), getBool j "conflict", getBool j "emptyPI",
+    if isNull j "selfRef" then none else some (parseRef (getD j "selfRef" Json.null))⟩
 
 def parseInput (j : Json) : Input :=
   { allowed := getBool j "allowed"
@@ -83,13 +84,40 @@ def branchName (n : Nat) : String :=
   | 6 => "doc.cached" | 7 => "drill.typed" | 8 => "reread.ok" | 9 => "drill.kindmismatch" | 10 => "pathitem.fragment"
   | 11 => "backtrack.fired" | 12 => "read.miss" | 13 => "parse.fail" | 14 => "fragment.bad" | 16 => "value.nil"
   | 17 => "drill.fail.nopath" | 18 => "reread.fail" | 19 => "pathitem.chain.nil" | 20 => "pathitem.chain"
-  | 21 => "backtrack.otherkind" | 22 => "parameter.schema+content" | 23 => "pathitem.emptyfile" | _ => s!"b{n}"
+  | 24 => "pathitem.file.isref" | 25 => "pathitem.file.isref.nil" | 22 => "parameter.schema+content" | 23 => "pathitem.emptyfile" | _ => s!"b{n}"
 
 def fuel : Nat := 4000
 
 def optUrl (d : Option Url) : Json := match d with | none => Json.null | some u => Json.str (renderUrl u)
 
+/-- a history case: "steps" (each: allowed, entry, rootLoc, rootFile, rootInStore) on one loader, one shared "store" -/
+def handleHistory (j : Json) : Json :=
+  let store := (getArr j "store").map (fun e => (parseUrl (getD e "loc" Json.null), parseFile (getD e "file" Json.null)))
+  let steps : List Input := (getArr j "steps").map (fun sj => { parseInput sj with store := store })
+  let outs := history steps fuel
+  let stepBranches (e : StepOut) : List String :=
+    e.st.tr.eraseDups.map branchName ++ (if e.st.foreign then ["foreign.base"] else []) ++
+    (if e.inp.allowed then ["switch.on"] else [])
+  let anyForeign := outs.any (fun e => e.st.foreign)
+  let kinds := outs.map (fun e => match e.inp.entry with | .file => "F" | .data => "D" | .dataWithPath => "P")
+  let branches := (outs.flatMap stepBranches).eraseDups ++ ["history", "history." ++ "".intercalate kinds] ++
+    (if outs.any (fun e => !e.inp.known.isEmpty && e.st.tr.contains 6) then ["history.cached.document"] else []) ++
+    (if outs.any (fun e => !e.inp.known.isEmpty && e.st.tr.contains 1) then ["history.resolved.before"] else [])
+  jobj [
+    ("model", jobj [("steps", Json.arr (outs.map (fun e =>
+        jobj [("log", jstrs (e.st.log.map renderUrl)), ("ok", Json.bool e.ok)])).toArray),
+      ("oof", Json.bool (outs.any (fun e => e.st.oof)))]),
+    ("spec", jobj [("steps", Json.arr (outs.map (fun e =>
+        let cands : List (Option Url) := e.inp.root :: (e.inp.store.map (fun x => some x.1))
+        jobj [("allowed", Json.bool e.inp.allowed), ("root", optUrl e.inp.root),
+              ("known", jstrs (e.inp.known.map renderUrl)),
+              ("edges", Json.arr ((specEdges e.inp cands).map (fun x => Json.arr #[optUrl x.1, Json.str (renderUrl x.2)])).toArray),
+              ("modelOK", Json.bool (specB e.inp e.st.log))])).toArray)]),
+    ("excl", jstrs (if anyForeign then ["ForeignBase"] else [])),
+    ("branches", jstrs branches)]
+
 def handle (j : Json) : Json :=
+  if !(getArr j "steps").isEmpty then handleHistory j else
   let inp := parseInput j
   let (st, ok) := load inp fuel
   let tr := st.tr.eraseDups
